@@ -19,7 +19,26 @@ def staticDef : PortDef :=
   { virtual := false, writable := true, vdef := none, defaults := vportDefaults false true ++ [("gain", .int 1), ("note", .str "")],
     initial := none }
 
+def hexVal (c : Char) : Option Nat :=
+  if '0' ≤ c ∧ c ≤ '9' then some (c.toNat - '0'.toNat)
+  else if 'a' ≤ c ∧ c ≤ 'f' then some (c.toNat - 'a'.toNat + 10)
+  else none
+
+def unhexBytes : List Char → Option (List UInt8)
+  | [] => some []
+  | [_] => none
+  | a :: b :: r => do
+    let x ← hexVal a
+    let y ← hexVal b
+    let rest ← unhexBytes r
+    pure (UInt8.ofNat (x * 16 + y) :: rest)
+
+def unhex (s : String) : Option String := do
+  let bs ← unhexBytes s.toList
+  String.fromUTF8? ⟨bs.toArray⟩
+
 structure DState where
+  clearFirst : Bool := true
   st : BState := { ports := fun _ => none, device := bootDevice cfg0 none, slaves := fun _ => none,
                    updating := true, events := true }
   ids : List String := []
@@ -27,9 +46,11 @@ structure DState where
 def boolNames : List String := ["enabled", "persisted", "internal"]
 
 def parseAttr (s : String) : Option (String × AVal) :=
+  if s.startsWith "expression:=" then (unhex (s.drop 12).toString).map (fun e => ("expression", .str e)) else
   match s.splitOn ":" with
   | [n, "g"] => some (n, if boolNames.contains n then .bool true else if n = "gain" then .int 3 else .str "x")
   | [n, "f"] => if boolNames.contains n then some (n, .bool false) else none
+
   | [n, "b"] => some (n, .str "BAD(")
   | [n, "t"] => some (n, if boolNames.contains n then .str "x" else .bool true)
   | _ => none
@@ -73,6 +94,15 @@ def mkSlave (i : Nat) : String × Slave :=
 
 def dstep (d : DState) : List String → DState × String
   | ["begin"] => ({}, "ok")
+  | ["begin", c] => ({ clearFirst := c == "1" }, "ok")
+  | ["static", id, en, val, ex] =>
+    -- a non-virtual port of the target with its enabled flag, current value and expression (hex, `-` = none)
+    match parsePV val, (if ex = "-" then some "" else unhex ex) with
+    | some pv, some e =>
+      let p := (setAttr cfg0 (fresh staticDef) "enabled" (.bool (en == "e"))).1
+      let p := (setAttr cfg0 p "expression" (.str e)).1
+      ({ d with st := { d.st with ports := upd d.st.ports id (some { p with value := pv }) }, ids := id :: d.ids }, "ok")
+    | _, _ => (d, "bad-op")
   | ["static", id] =>
     ({ d with st := { d.st with ports := upd d.st.ports id (some (fresh staticDef)) }, ids := id :: d.ids }, "ok")
   | ["static", id, en, val] =>
@@ -103,7 +133,7 @@ def dstep (d : DState) : List String → DState × String
     match ws.mapM parseEntry with
     | none => (d, "bad-op")
     | some docs =>
-      let (st', r) := putPorts cfg0 d.st docs
+      let (st', r) := putPorts cfg0 (loopsFuel (d.ids.length + docs.length + 2)) d.clearFirst d.st docs
       let ids := (d.ids ++ docs.map (·.id)).eraseDups.mergeSort (fun a b => decide (a ≤ b))
       let present := ids.filter (fun i => (st'.ports i).isSome)
       let head := match r with
